@@ -15,7 +15,8 @@ from . import tlc
 from .common import NCPU, Timer, import_doctrans, scratch, seed, tier
 
 
-def render(items, indent=""):
+def render(items, indent="", real=False, in_class=False):
+    """real: functions inside a class are methods (self first), the last positional and the later keyword-only arguments have defaults."""
     out = []
     for it in items:
         k, n = it["k"], it["n"]
@@ -27,21 +28,34 @@ def render(items, indent=""):
             out.append("%simport os" % indent)
         elif k == "func":
             args = list(it["args"])
-            if it["kwonly"]:
-                args += ["*"] + list(it["kwonly"])
+            kwo = list(it["kwonly"])
+            if real:
+                if args:
+                    args[-1] += "=1"
+                kwo = [x + ("=2" if j else "") for j, x in enumerate(kwo)]
+                if in_class:
+                    args = ["self"] + args
+            if kwo:
+                args += ["*"] + kwo
             out.append("%sdef %s(%s):" % (indent, n, ", ".join(args)))
             out.append("%s    pass" % indent)
         elif k == "class":
             out.append("%sclass %s(object):" % (indent, n))
-            body = render(it["body"], indent + "    ")
+            body = render(it["body"], indent + "    ", real, True)
             out += body if body else ["%s    pass" % indent]
         else:
             raise ValueError(k)
     return out
 
 
-def source_of(mod):
-    return "\n".join(render(mod)) + "\n"
+def source_of(mod, real=False):
+    return "\n".join(render(mod, real=real)) + "\n"
+
+
+def _positional(st):
+    """The addressable positional arguments of a FunctionDef: a leading self / cls is not one of them."""
+    a = st.args.args
+    return a[1:] if a and a[0].arg in ("self", "cls") else a
 
 
 def addresses(tree):
@@ -53,7 +67,7 @@ def addresses(tree):
             a = addr + [i]
             out[id(st)] = a
             if isinstance(st, ast.FunctionDef):
-                for j, arg in enumerate(st.args.args, 1):
+                for j, arg in enumerate(_positional(st), 1):
                     out[id(arg)] = a + [100 + j]
                 for j, arg in enumerate(st.args.kwonlyargs, 1):
                     out[id(arg)] = a + [200 + j]
@@ -76,7 +90,7 @@ def snapshot(tree):
             a = tuple(addr + [i])
             if isinstance(st, ast.FunctionDef):
                 out[a] = ("func", st.name, len(st.args.args), len(st.args.kwonlyargs), ast.dump(ast.Module(body=st.body, type_ignores=[])))
-                for j, arg in enumerate(st.args.args, 1):
+                for j, arg in enumerate(_positional(st), 1):
                     out[a + (100 + j,)] = dump_arg(arg)
                 for j, arg in enumerate(st.args.kwonlyargs, 1):
                     out[a + (200 + j,)] = dump_arg(arg)
@@ -95,7 +109,7 @@ def one(sc):
     from doctrans.ast_utils import RewriteAtQuery, find_in_ast
     from doctrans.source_transformer import ast_parse
 
-    src = source_of(sc["mod"])
+    src = source_of(sc["mod"], real=bool(sc.get("real")))
     rec = {"id": sc["id"], "mod": sc["mod"], "path": sc["path"], "fexc": "none", "found": [0], "rexc": "none", "changed": [], "replaced": False}
     try:
         tree = ast_parse(src)
@@ -252,6 +266,9 @@ def run(prop="C15", propose=False, replay=None):
             for i, s in enumerate(extra):
                 s["id"] = "m%d" % i
             scs += extra
+    if not replay:
+        for i, sc in enumerate(scs):
+            sc["real"] = bool(i % 2)       # every other module is rendered with methods (self first) and default values
     with Pool(NCPU) as pool:
         recs = pool.map(one, scs, chunksize=200)
     traces = [{k: v for k, v in r.items() if k not in ("src", "ftrace", "rtrace")} for r in recs]
